@@ -226,6 +226,10 @@ def run_hex(run):
                 acc[x] = c
                 shape = "lower" if x == c else ("nul-truncated" if b"\0" in x else ("upper" if x == x.upper() else "mixed"))
                 cx.count(("hex-acc", ty, x), True, "val:hex:%s:accepted:%s" % (ty, shape))
+                if b"\0" in x:
+                    # (L) a value is the bytes [value, value + value_len): a NUL inside is no hexadecimal digit (finding F423: strndup truncates)
+                    cx.fail("val", "a value with an embedded NUL byte is accepted: the bytes after the NUL are never looked at",
+                            {"type": d, "value_hex": hexs(x), "got": r, "law": "hex_nul_refused"})
             else:
                 cx.count(("hex-rej", ty, x), True, "val:hex:%s:rejected:%s" % (ty, r[1]))
             case = {"type": d, "value_hex": hexs(x), "got": r, "oracle": want, "law": "hex_accept_iff"}
